@@ -45,6 +45,9 @@ Drift_LinModelExplainsTicks == (IsTicks /\ T.err = "" /\ T.hi - T.lo >= T.m /\ T
         /\ Cnt >= FloorDiv(T.hi - Tol, s) - CeilDiv(T.lo + Tol, s) + 1
 \* ------------------------------------------------------------------ C14 (linear)
 C14_NeverInward == IsNice => T.nlo <= T.lo + Tol /\ T.nhi >= T.hi - Tol
+\* ... and not inward by more than float arithmetic accounts for either (xin: the inward movement of an end in thousandths of
+\* four roundings at the magnitude of the end points; the units above cannot see less than a thousandth of a step)
+C14_NeverInwardUpToFloatNoise == IsNice => T.xin <= 1000
 C14_KeepsOrientation == IsNice => T.rev_in = T.rev_out
 C14_LessThanTwoSteps == IsNice => T.lo - T.nlo < 2 * StepQ + Tol /\ T.nhi - T.hi < 2 * StepQ + Tol
 NearMultiple(x, s, tol) == LET mm == ((x % s) + s) % s IN mm <= tol \/ s - mm <= tol
